@@ -10,6 +10,7 @@ import (
 	"fmt"
 	"os"
 	"runtime/pprof"
+	"sort"
 	"strconv"
 	"strings"
 
@@ -22,13 +23,13 @@ var ShardArgsPrefix []string
 
 type stats struct {
 	states, requests, failed, skipped, explicit, explicitRefused int
-	inputsChecked, sigsVerified, nontrivial, sequences          int
-	finalizeFailed, confirmations                               int
-	byEntry, byEntryOK, byStatus, byReason, sigByType           map[string]int
-	failKinds, msByEntry                                        map[string]int
-	nsByEntry                                                   map[string]int64
-	byStateSize                                                 map[string]int
-	samples                                                     []string
+	inputsChecked, sigsVerified, nontrivial, sequences           int
+	finalizeFailed, confirmations                                int
+	byEntry, byEntryOK, byStatus, byReason, sigByType            map[string]int
+	failKinds, msByEntry                                         map[string]int
+	nsByEntry                                                    map[string]int64
+	byStateSize                                                  map[string]int
+	samples                                                      []string
 }
 
 func newStats() *stats {
@@ -115,7 +116,9 @@ const requestRule = "coin i of a state receives (i+1)*1000000+100000 sat; status
 	"(b) explicit selection of every non-empty subset of the state's coins through CreateSimpleTx(WithCustomSelectUtxos) (signed and dry-run), SendOutputsWithInput and FundPsbt with pre-set inputs x amount {10000, sum(selected)-2000} (10000 only when a selected coin is ineligible: the call must fail anyway); " +
 	"(c) the duplicated selection [c,c] of every eligible coin c through CreateSimpleTx, SendOutputsWithInput, FundPsbt; " +
 	"(d) for minconf<=1 and a non-empty eligible set: every ordering of {10000, 10000, sum(eligible)-2000} as three successive SendOutputs with accepted broadcasts (Quiesce after each) x strategy {CoinSelectionLargest, smallest-coin-first order}; the change outputs of earlier sends join the oracle's coin set. " +
-	"oracle: eligible iff credited to the requested account (and scope unless nil), unspent by any known tx, not locked, no active lease, confs>=minconf, coinbase confs>=maturity, all from the harness' record of the state; every input of every success must be eligible and distinct, explicit selections containing an ineligible coin must fail, inputs of explicit requests are selected ones, later sends never reuse inputs of earlier published ones, every input of a signed result passes txscript.Engine with StandardVerifyFlags, payable requests fail only for lack of funds. " +
+	"(e) for key scope nil, each account with a non-empty eligible set and the smallest minconf of the state: SendOutputs(10000, Largest), then a resynchronisation whose rebroadcast answers range over {accept, chain.ErrTxAlreadyInMempool}^n (n = number of transactions still unconfirmed: the state's unconfirmed receipts/spenders and the first send), then a second SendOutputs; 1-coin states: resynchronisation by Wallet.Rescan and by restart (stop, open, attach, unlock, LockOutpoint re-applied), second amount {10000, sum(eligible)-2000}; larger states: Wallet.Rescan and 10000 only. " +
+	"States holding a coinbase coin additionally use minconf = confs and confs+1 of every coinbase coin and of the deepest non-coinbase coin. " +
+	"oracle: eligible iff credited to the requested account (and scope unless nil), unspent by any known tx, not locked, no active lease, confs>=minconf, coinbase confs>=maturity, all from the harness' record of the state; every input of every success must be eligible and distinct, explicit selections containing an ineligible coin must fail, inputs of explicit requests are selected ones, later sends never reuse inputs of earlier published, still unconfirmed ones (also across a resynchronisation), every input of a signed result passes txscript.Engine with StandardVerifyFlags, payable requests fail only for lack of funds. " +
 	"A published send is undone with TxStore.RemoveUnminedTx and the store compared with the base snapshot; the first witness of every signature is re-executed on a freshly built state before it is reported. " +
 	"non-trivial = requests for which the state holds (coin selection) or the selection contains (explicit) at least one coin that is ineligible for the request"
 
@@ -199,6 +202,8 @@ func Run(args []string) {
 	run.Finish(ev.Coverage{
 		"states":                        st.states,
 		"state_builds":                  builds,
+		"state_rebuilds_after_resync":   rebuilds,
+		"resynchronisations":            resyncs,
 		"transitions":                   st.requests,
 		"traces_validated_against_impl": st.requests,
 		"evaluations":                   st.inputsChecked + st.sigsVerified,
@@ -355,6 +360,42 @@ func (x *explorer) exploreState(specs []CoinSpec) {
 	if young {
 		minconfs = []int32{0, 1, 2, 6}
 	}
+	// States with a coinbase coin: the boundary values confs and confs+1 of
+	// every coinbase coin and of the deepest other coin.
+	addMC := func(v int32) {
+		for _, m := range minconfs {
+			if m == v {
+				return
+			}
+		}
+		minconfs = append(minconfs, v)
+	}
+	hasCB, deepest := false, int32(-1)
+	for _, cn := range w.coins {
+		confs := int32(0)
+		if cn.height >= 0 {
+			confs = w.tip - cn.height + 1
+		}
+		if cn.coinbase {
+			hasCB = true
+		} else if confs > deepest {
+			deepest = confs
+		}
+	}
+	if hasCB {
+		for _, cn := range w.coins {
+			if cn.coinbase {
+				confs := w.tip - cn.height + 1
+				addMC(confs)
+				addMC(confs + 1)
+			}
+		}
+		if deepest >= 0 {
+			addMC(deepest)
+			addMC(deepest + 1)
+		}
+	}
+	sort.Slice(minconfs, func(i, j int) bool { return minconfs[i] < minconfs[j] })
 	var perms [][]int
 	if k >= 2 {
 		perms = permutations(k)
@@ -438,6 +479,32 @@ func (x *explorer) exploreState(specs []CoinSpec) {
 					for _, e := range []string{"CreateSimpleTx", "SendOutputsWithInput", "FundPsbtInputs"} {
 						r.Entry = e
 						x.do(w, &r)
+					}
+				}
+				// (e) a resynchronisation between two sends
+				if sc == -1 && mc == minconfs[0] && nE > 0 {
+					n := w.baseUnmined + 1
+					kinds, seconds := []string{"rescan"}, []string{"small"}
+					if k == 1 {
+						kinds, seconds = []string{"rescan", "restart"}, []string{"small", "most"}
+					}
+					for _, kind := range kinds {
+						for _, second := range seconds {
+							for m := 0; m < 1<<n; m++ {
+								ans := make([]string, n)
+								for i := range ans {
+									ans[i] = "accept"
+									if m&(1<<i) != 0 {
+										ans[i] = "mempool"
+									}
+								}
+								r1 := base
+								r1.Entry = "SendOutputs"
+								r2 := r1
+								r2.Amount, r2.Resync, r2.ResyncKind = second, ans, kind
+								x.do(w, &r1, &r2)
+							}
+						}
 					}
 				}
 				// (d) sequences of successive sends
